@@ -78,6 +78,20 @@ theorem realOfNat_cast (n : Nat) : realOfNat n = (n : ℝ) := rfl
 @[simp] theorem real_isNaN (a : ℝ) : Num.isNaN a = false := by simp [Num.isNaN, Num.beq]
 @[simp] theorem real_sin (a : ℝ) : Num.sin a = Real.sin a := rfl
 @[simp] theorem real_cos (a : ℝ) : Num.cos a = Real.cos a := rfl
+theorem real_lt_dec (a b : ℝ) : Num.lt a b = decide (a < b) := rfl
+theorem real_le_dec (a b : ℝ) : Num.le a b = decide (a ≤ b) := rfl
+theorem real_gt_dec (a b : ℝ) : Num.gt a b = decide (b < a) := rfl
+theorem real_ge_dec (a b : ℝ) : Num.ge a b = decide (b ≤ a) := rfl
 end simp_lemmas
+
+/-- turn the Boolean comparisons of the exact instance (in hypothesis `h`) into propositions -/
+macro "bool_real_at" h:ident : tactic =>
+  `(tactic| simp only [real_lt_dec, real_le_dec, real_gt_dec, real_ge_dec, Bool.and_eq_true, Bool.or_eq_true,
+      Bool.not_eq_true', Bool.not_eq_true, Bool.and_eq_false_imp, Bool.or_eq_false_iff, Bool.not_eq_false',
+      decide_eq_true_eq, decide_eq_false_iff_not, not_and, not_or, not_not, not_lt, not_le] at $h:ident)
+macro "bool_real" : tactic =>
+  `(tactic| simp only [real_lt_dec, real_le_dec, real_gt_dec, real_ge_dec, Bool.and_eq_true, Bool.or_eq_true,
+      Bool.not_eq_true', Bool.not_eq_true, Bool.and_eq_false_imp, Bool.or_eq_false_iff, Bool.not_eq_false',
+      decide_eq_true_eq, decide_eq_false_iff_not, not_and, not_or, not_not, not_lt, not_le])
 
 end G3d
